@@ -12,7 +12,9 @@ m=json.load(open('$d/meta.json'))
 cb=m.get('caught_by',{})
 ks=[k for k,v in cb.items() if v and not str(v[0]).startswith('not caught')] if isinstance(cb,dict) else []
 print(' '.join(ks) if ks else m['breaks_property'])")
-  res=$(tools/try_mutation.sh "$d/patch.diff" $prop 2>&1 | grep -E "exit=" | tr '\n' ';')
+  out=$(tools/try_mutation.sh "$d/patch.diff" $prop 2>&1)
+  if echo "$out" | grep -q "patch does not apply"; then echo "$id -> PATCH DOES NOT APPLY"; continue; fi
+  res=$(echo "$out" | grep -E "exit=" | tr '\n' ';')
   case "$res" in *exit=1*) verdict=CAUGHT;; *) verdict=MISSED;; esac
   echo "$id -> $verdict $res"
 done
